@@ -9,15 +9,14 @@ Q = "xdoctest.utils.util_import:PythonPathContext."
 contract(Q + "__enter__",
          params={"self": "PythonPathContext"}, globals=GP,
          modifies=["self.index", "sys.path"],
-         ensures=[("index-normalised", "0 <= self.index or old(self.index) < -len(old(sys.path)) - 1"),
+         ensures=[("index-normalised", "self.index == (old(self.index) if old(self.index) >= 0 else len(old(sys.path)) + old(self.index) + 1)"),
                   ("inserted", "sys.path == old(sys.path)[:self.index] + [self.dpath] + old(sys.path)[self.index:]"),
                   ("append-for-minus-one", "implies(old(self.index) == -1, sys.path == old(sys.path) + [self.dpath])"),
                   ("front-for-zero", "implies(old(self.index) == 0, sys.path == [self.dpath] + old(sys.path))")],
          props=["C12", "C17"], opts={"native": False})
 
 contract(Q + "__exit__",
-         params={"self": "PythonPathContext", "ex_type": "Optional[Val]", "ex_value": "Optional[Val]",
-                 "ex_traceback": "Optional[Val]"},
+         params={"self": "PythonPathContext", "ex_type": "Val", "ex_value": "Val", "ex_traceback": "Val"},
          returns="None", globals=GP,
          requires=[("index-normalised", "0 <= self.index")],
          modifies=["sys.path"],
@@ -30,3 +29,33 @@ contract(Q + "__exit__",
          raises={"RuntimeError": "self.dpath not in old(sys.path)"},
          props=["C12", "C17"], opts={"native": False},
          sentinel=("pops-last", "sys.path == old(sys.path)[:len(old(sys.path)) - 1]"))
+
+contract("xdoctest.utils.util_import:PythonPathContext.__init__",
+         params={"self": "PythonPathContext", "dpath": "str", "index": "int"},
+         modifies=["self.dpath", "self.index"],
+         ensures=[("fields", "self.dpath == dpath and self.index == index")],
+         props=["C12"], opts={"native": False})
+
+contract("xdoctest.utils.util_import:split_modpath",
+         params={"modpath": "str", "check": "bool"}, returns="tuple[str,str]", trusted=True,
+         raises={"ValueError?": None},
+         note="T here (file system); its own contract is part of C17")
+
+contract("xdoctest.utils.util_import:modpath_to_modname",
+         params={"modpath": "str", "hide_init": "bool", "hide_main": "bool", "check": "bool", "relativeto": "Optional[str]"},
+         returns="str", trusted=True, raises={"ValueError?": None},
+         note="T here (file system); C17")
+
+contract("xdoctest.utils.util_import:import_module_from_name",
+         params={"modname": "str"}, returns="Val", trusted=True,
+         raises={"Exception*?": None},
+         note="T: importlib; assumed to leave sys.path as it found it (the quantifier's module bodies)")
+
+contract("xdoctest.utils.util_import:_custom_import_modpath",
+         params={"modpath": "str", "index": "int"}, returns="Val", globals=GP,
+         requires=[("index-in-range", "-len(sys.path) - 1 <= index and index <= len(sys.path)")],
+         modifies=["sys.path"],
+         ensures=[("restored", "sys.path == old(sys.path)")],
+         raises={"RuntimeError?": "sys.path == old(sys.path)", "ValueError?": "sys.path == old(sys.path)"},
+         props=["C12", "C17"], opts={"native": False},
+         sentinel=("leaks-dpath", "len(sys.path) == len(old(sys.path)) + 1"))
